@@ -419,6 +419,30 @@ func (p *vaPC) bcastCount() int { return int(p.nb.Load()) }
 // for another station may carry this node's MAC as THA).
 var vaZeroMAC = net.HardwareAddr{0, 0, 0, 0, 0, 0}
 
+// vaMalformed: frames the ethernet / ARP parsers of the real read path reject (what a NIC hands over
+// on a noisy segment): a runt ethernet frame, an ARP frame with a truncated header, an ARP header whose
+// hardware-address length exceeds the frame.  The socket is NOT closed: the responder must drop them
+// and go on.
+func vaMalformed(kind int, dst net.HardwareAddr) []byte {
+	switch kind {
+	case 0: // runt: shorter than an ethernet header
+		return []byte{0xff, 0xff, 0xff, 0xff, 0xff, 0xff}
+	case 1: // ARP ethertype, 5 bytes of ARP header
+		b, _ := (&ethernet.Frame{Destination: dst, Source: vaSrcMAC, EtherType: ethernet.EtherTypeARP, Payload: []byte{0, 1, 8, 0, 6}}).MarshalBinary()
+		return b
+	default: // hardware type 1, protocol 0x0800, hlen 0xff, plen 4, op 1
+		b, _ := (&ethernet.Frame{Destination: dst, Source: vaSrcMAC, EtherType: ethernet.EtherTypeARP,
+			Payload: []byte{0x00, 0x01, 0x08, 0x00, 0xff, 0x04, 0x00, 0x01, 2, 0, 0, 0, 0, 9}}).MarshalBinary()
+		return b
+	}
+}
+
+// a well-formed frame of ANOTHER protocol (IPv4 ethertype): the ARP client skips it inside Read
+func vaForeignFrame(dst net.HardwareAddr) []byte {
+	b, _ := (&ethernet.Frame{Destination: dst, Source: vaSrcMAC, EtherType: ethernet.EtherTypeIPv4, Payload: make([]byte, 46)}).MarshalBinary()
+	return b
+}
+
 func vaFrame(op int, dst, tha net.HardwareAddr, target string) []byte {
 	pkt, err := arp.NewPacket(arp.Operation(op), vaSrcMAC, net.IPv4(192, 168, 1, 1), tha, net.ParseIP(target))
 	if err != nil {
@@ -853,6 +877,46 @@ func vaRunHistory(out *vOut, r *rand.Rand, id, steps int, replay *vaHist) {
 							}
 						}
 					}
+				}
+			}
+			// frames the parsers reject, through the same read path, each followed by a well-formed
+			// broadcast request: the malformed frame is dropped WITHOUT being taken for the end of the
+			// socket (run() would exit) and the request after it is answered as usual; a frame of
+			// another protocol is skipped inside the read
+			for kind := 0; kind < 4; kind++ {
+				tgt := append(append([]string{}, vaV4...), vaNever4)[(k+kind+resp)%(len(vaV4)+1)]
+				sut.pcs[resp].take()
+				if kind < 3 {
+					sut.pcs[resp].in <- vaMalformed(kind, []net.HardwareAddr{ethernet.Broadcast, vaMACs[resp]}[(k+kind)%2])
+					got := sut.a.VerifARPProcess(resp)
+					_, replies := sut.pcs[resp].take()
+					out.Stat("arp_malformed_frames", 1)
+					if got == int(dropReasonClosed) {
+						fail("l2-arp-malformed-frame-ends-responder", fmt.Sprintf("ARP responder on %s: a malformed frame (kind %d: 0 runt, 1 truncated ARP header, 2 hardware-address length 0xff) on an OPEN socket is reported as dropReasonClosed: arpResponder.run() exits and the interface never answers again", vaIfs[resp], kind))
+					} else if got == 0 || replies != 0 {
+						fail("l2-arp-malformed-frame-answered", fmt.Sprintf("ARP responder on %s answered a malformed frame (kind %d): drop reason %d, %d reply frames", vaIfs[resp], kind, got, replies))
+					}
+					if ship {
+						obs = append(obs, cCtor("OArpBad", cNi(resp), vaDrops[got], cBool(replies != 0)))
+					}
+					if got == int(dropReasonClosed) {
+						continue
+					}
+				} else {
+					sut.pcs[resp].in <- vaForeignFrame(ethernet.Broadcast)
+				}
+				sut.pcs[resp].in <- vaFrame(1, ethernet.Broadcast, vaZeroMAC, tgt)
+				got := sut.a.VerifARPProcess(resp)
+				_, replies := sut.pcs[resp].take()
+				reasons := w.arpReasons(vaIfs[resp], vaMACs[resp], 1, ethernet.Broadcast, tgt)
+				if !vaAdmissible(reasons, got) || (got == 0) != (replies == 1) {
+					fail("l2-arp-after-malformed", fmt.Sprintf("ARP responder on %s: request for %s after a malformed / foreign frame (kind %d): drop reason %d, %d reply frames, applicable reasons %v", vaIfs[resp], tgt, kind, got, replies, reasons))
+				}
+				if len(reasons) == 0 {
+					out.Stat("arp_replies_after_malformed", 1)
+				}
+				if ship {
+					obs = append(obs, cCtor("OArp", cNi(resp), vaMacN(vaMACs[resp]), cNi(1), vaMacN(ethernet.Broadcast), vaMacN(vaZeroMAC), vaCoqIP(tgt), vaDrops[got], cBool(replies == 1)))
 				}
 			}
 		}
@@ -1480,6 +1544,41 @@ func TestVerifSpamLoop(t *testing.T) {
 	time.Sleep(250 * time.Millisecond)
 	if c := count(A); c != [2]int{2, 2} {
 		fail(fmt.Sprintf("right after announcing A: %v broadcast frames for A on (eth0, eth1), want 2 each (request+reply)", c))
+	}
+	// the REAL receive loop (arpResponder.run) of a third responder across malformed frames: a frame the
+	// parsers reject on an open socket must not end the loop; the request after it is answered
+	{
+		pc := vaNewPC()
+		if err := a.VerifAddARP(2, vaIfs[2], vaMACs[2], pc); err != nil {
+			panic(err)
+		}
+		a.VerifARPRun(2)
+		ask := func() bool { // a broadcast request for A; true when a unicast reply is written within 2 s
+			before := pc.nu.Load()
+			pc.in <- vaFrame(1, ethernet.Broadcast, vaZeroMAC, A)
+			for i := 0; i < 400; i++ {
+				if pc.nu.Load() > before {
+					return true
+				}
+				time.Sleep(5 * time.Millisecond)
+			}
+			return false
+		}
+		step("run loop on " + vaIfs[2] + ": request for A")
+		if !ask() {
+			fail("the running ARP responder does not answer a request for the announced address A")
+		} else {
+			for kind := 0; kind < 3; kind++ {
+				step(fmt.Sprintf("run loop: malformed frame kind %d (0 runt, 1 truncated ARP header, 2 hardware-address length 0xff), then a request for A", kind))
+				pc.in <- vaMalformed(kind, ethernet.Broadcast)
+				if !ask() {
+					out.Fail("l2-arp-malformed-frame-ends-responder", fmt.Sprintf("after ONE malformed frame (kind %d) the running ARP responder on %s never answers again (no reply to a request for the announced address %s within 2 s) while shouldAnnounce still says %d (0 = answer)", kind, vaIfs[2], A, a.VerifShouldAnnounce(net.ParseIP(A), vaIfs[2])),
+						map[string]any{"steps": trace, "how": "./check C13 (TestVerifSpamLoop: real arpResponder.run over an in-memory PacketConn)"})
+					break
+				}
+				out.Stat("runloop_answers_after_malformed", 1)
+			}
+		}
 	}
 	step("DeleteBalancer s3 (last holder of C); DeleteBalancer s1 (one of two holders of B); SetBalancer s0 A only eth0")
 	a.DeleteBalancer(vaSvcs[3])
